@@ -48,6 +48,18 @@ Example or_and_mix :
   = Some (4%nat, true, [(false, -1); (true, 33#13)]).
 Proof. vm_compute. reflexivity. Qed.
 
+(* two conditions registered WITHOUT a mode are or-combined: the run ends when the first one is met
+   although the second never is; the same two registered with 'and' run to the end time *)
+Example default_mode_is_any :
+  solveQ 4 (registered [Reg_ (C_ VolFrac GreaterThan (2#10) (Some "B1")) (latch0 Qops) None;
+                        Reg_ (C_ VolFrac GreaterThan 9 None) (latch0 Qops) None])
+  = Some (3%nat, true, [(true, 3#2); (false, -1)])
+  /\
+  solveQ 4 (registered [Reg_ (C_ VolFrac GreaterThan (2#10) (Some "B1")) (latch0 Qops) (Some "and");
+                        Reg_ (C_ VolFrac GreaterThan 9 None) (latch0 Qops) (Some "and")])
+  = Some (5%nat, false, [(true, 3#2); (false, -1)]).
+Proof. vm_compute. split; reflexivity. Qed.
+
 (* strict inequality: a value equal to the threshold does not satisfy it *)
 Example tie_is_not_met :
   solveQ 2 [fresh (C_ VolFrac GreaterThan (3#10) (Some "B1")) true] = Some (3%nat, false, [(false, -1)]).
